@@ -29,11 +29,11 @@ func parsePkt(p netsim.Packet) (pkt, bool) {
 // mbPrepare sets the asker's counter so that this ask carries the counter the script wants
 // (the script's counters are small numbers: collisions between in-flight asks are the point),
 // and aligns the start of a clock epoch to the beginning of a millisecond.
-func (r *run) mbPrepare(as *askState, s Step) {
+func (r *run) mbPrepare(as *askState, s Step, align bool) {
 	if as.asker.setCounter != nil && s.Ctr > 0 {
 		as.asker.setCounter(uint32(1000 + s.Ctr - 1)) // getCounter pre-increments
 	}
-	if !r.aligned || s.Now != r.lastNow {
+	if align || !r.aligned || s.Now != r.lastNow {
 		r.aligned, r.lastNow = true, s.Now
 		ms := time.Now().UnixMilli()
 		for time.Now().UnixMilli() == ms {
